@@ -27,27 +27,27 @@ theorem subIndexes_idx (k : Int) (n : Nat) : subIndexes (.idx k) n = [] ∨ ∃ 
 /-- a single-valued chain meets at most one failure, and none when it selects something -/
 theorem fails_single (env : Env) : ∀ (ch : List N) (root cur : Val), singleDeep ch = true →
     (fails env ch root cur).length ≤ 1 ∧ (den env ch root cur ≠ [] → fails env ch root cur = [])
-  | [], _, _, _ => by simp [fails]
+  | [], _, _, _ => by simp [fails, failsN]
   | .root i :: rest, root, cur, h => by
-    simp only [singleDeep, singleNode, Bool.true_and] at h
-    simp only [fails, den]
+    simp only [singleDeep, singleDeepN, singleNode, Bool.true_and] at h
+    simp only [fails, failsN, den]
     exact fails_single env rest root root h
   | .cur i :: rest, root, cur, h => by
-    simp only [singleDeep, singleNode, Bool.true_and] at h
-    simp only [fails, den]
+    simp only [singleDeep, singleDeepN, singleNode, Bool.true_and] at h
+    simp only [fails, failsN, den]
     exact fails_single env rest root cur h
   | .child i k :: rest, root, cur, h => by
-    simp only [singleDeep, singleNode, Bool.true_and] at h
+    simp only [singleDeep, singleDeepN, singleNode, Bool.true_and] at h
     cases cur with
     | obj kvs =>
-      simp only [fails, den]
+      simp only [fails, failsN, den]
       cases hl : Val.lookup k kvs with
       | none => simp
       | some v => exact fails_single env rest root v h
-    | null | bool _ | num _ | jnum _ | str _ | arr _ | opq _ _ => simp [fails, den]
+    | null | bool _ | num _ | jnum _ | str _ | arr _ | opq _ _ => simp [fails, failsN, den]
   | .ffn i name :: rest, root, cur, h => by
-    simp only [singleDeep, singleNode, Bool.true_and] at h
-    simp only [fails, den]
+    simp only [singleDeep, singleDeepN, singleNode, Bool.true_and] at h
+    simp only [fails, failsN, den]
     cases hf : env.ffn name with
     | none => simp
     | some f =>
@@ -58,10 +58,10 @@ theorem fails_single (env : Env) : ∀ (ch : List N) (root cur : Val), singleDee
   | .union i subs :: rest, root, cur, h => by
     match subs, h with
     | [.idx k], h =>
-      simp only [singleDeep, singleNode, Bool.true_and] at h
+      simp only [singleDeep, singleDeepN, singleNode, Bool.true_and] at h
       cases cur with
       | arr xs =>
-        simp only [fails, den, List.flatMap_cons, List.flatMap_nil, List.append_nil]
+        simp only [fails, failsN, den, List.flatMap_cons, List.flatMap_nil, List.append_nil]
         rcases subIndexes_idx k xs.length with h0 | ⟨j, h0⟩ <;> rw [h0]
         · simp [grp]
         · rw [grp_single]
@@ -69,17 +69,17 @@ theorem fails_single (env : Env) : ∀ (ch : List N) (root cur : Val), singleDee
           cases hg : (if j < 0 then none else xs[j.toNat]?) with
           | none => simp
           | some v => exact fails_single env rest root v h
-      | null | bool _ | num _ | jnum _ | str _ | obj _ | opq _ _ => simp [fails, den]
-    | [], h => simp [singleDeep, singleNode] at h
-    | [.wild], h => simp [singleDeep, singleNode] at h
-    | [.slicePos _ _ _], h => simp [singleDeep, singleNode] at h
-    | [.sliceNeg _ _ _], h => simp [singleDeep, singleNode] at h
-    | _ :: _ :: _, h => simp [singleDeep, singleNode] at h
+      | null | bool _ | num _ | jnum _ | str _ | obj _ | opq _ _ => simp [fails, failsN, den]
+    | [], h => simp [singleDeep, singleDeepN, singleNode] at h
+    | [.wild], h => simp [singleDeep, singleDeepN, singleNode] at h
+    | [.slicePos _ _ _], h => simp [singleDeep, singleDeepN, singleNode] at h
+    | [.sliceNeg _ _ _], h => simp [singleDeep, singleDeepN, singleNode] at h
+    | _ :: _ :: _, h => simp [singleDeep, singleDeepN, singleNode] at h
   | .afn i name param :: rest, root, cur, h => by
-    simp only [singleDeep, Bool.and_eq_true] at h
+    simp only [singleDeep, singleDeepN, Bool.and_eq_true] at h
     obtain ⟨hp, hr⟩ := h
     obtain ⟨p1, p2⟩ := fails_single env param root cur hp
-    simp only [fails, den]
+    simp only [fails, failsN, den]
     cases hd : den env param root cur with
     | nil =>
       simp only [List.append_nil]
@@ -94,10 +94,10 @@ theorem fails_single (env : Env) : ∀ (ch : List N) (root cur : Val), singleDee
         cases hfa : f (aggArgs (chainVg param) r0 (r0 :: rs)) with
         | none => simp
         | some r => exact fails_single env rest root r hr
-  | .wild _ :: _, _, _, h => by simp [singleDeep, singleNode] at h
-  | .multi _ _ _ :: _, _, _, h => by simp [singleDeep, singleNode] at h
-  | .desc _ _ _ :: _, _, _, h => by simp [singleDeep, singleNode] at h
-  | .filter _ _ :: _, _, _, h => by simp [singleDeep, singleNode] at h
+  | .wild _ :: _, _, _, h => by simp [singleDeep, singleDeepN, singleNode] at h
+  | .multi _ _ _ :: _, _, _, h => by simp [singleDeep, singleDeepN, singleNode] at h
+  | .desc _ _ _ :: _, _, _, h => by simp [singleDeep, singleDeepN, singleNode] at h
+  | .filter _ _ :: _, _, _, h => by simp [singleDeep, singleDeepN, singleNode] at h
 
 theorem singleDeep_of_noAfn : ∀ (ch : List N), singleChain ch = true → noAfn ch = true → singleDeep ch = true
   | [], _, _ => rfl
@@ -105,7 +105,7 @@ theorem singleDeep_of_noAfn : ∀ (ch : List N), singleChain ch = true → noAfn
     simp only [singleChain, Bool.and_eq_true] at h1
     simp only [noAfn, Bool.and_eq_true] at h2
     have ih := singleDeep_of_noAfn rest h1.2 h2.2
-    cases n <;> simp_all [singleDeep, noAfnN]
+    cases n <;> simp_all [singleDeep, singleDeepN, noAfnN, singleNode]
 
 /-! ### `ConnOK` of the chain as written gives `ConnDeep` -/
 
@@ -122,10 +122,10 @@ theorem ConnOK.right {a b : List N} (h : ConnOK (a ++ b)) : ConnOK b :=
 
 /-- every Info of `infos` belongs to a node of the chain as written -/
 theorem infos_flat : ∀ (ch : List N), ∀ j ∈ infos ch, ∃ n ∈ flat ch, j ∈ Fails.errInfos n
-  | [], j, h => by simp [infos] at h
+  | [], j, h => by simp [infos, infosN] at h
   | .afn i name param :: rest, j, h => by
-    simp only [infos, List.mem_append, List.mem_cons] at h
-    simp only [flat, List.mem_append, List.mem_cons]
+    simp only [infos, infosN, List.mem_append, List.mem_cons] at h
+    simp only [flat, flatN, List.mem_append, List.mem_cons]
     rcases h with h | rfl | h
     · obtain ⟨n, hn, hj⟩ := infos_flat param j h
       exact ⟨n, Or.inl hn, hj⟩
@@ -134,15 +134,15 @@ theorem infos_flat : ∀ (ch : List N), ∀ j ∈ infos ch, ∃ n ∈ flat ch, j
       exact ⟨n, Or.inr (Or.inr hn), hj⟩
   | .root i :: rest, j, h | .cur i :: rest, j, h | .child i _ :: rest, j, h | .wild i :: rest, j, h
   | .desc i _ _ :: rest, j, h | .union i _ :: rest, j, h | .filter i _ :: rest, j, h | .ffn i _ :: rest, j, h => by
-    simp only [infos, List.mem_cons] at h
-    simp only [flat, List.mem_cons]
+    simp only [infos, infosN, List.mem_cons] at h
+    simp only [flat, flatN, List.mem_cons]
     rcases h with rfl | h
     · exact ⟨_, Or.inl rfl, by simp [Fails.errInfos, N.info]⟩
     · obtain ⟨n, hn, hj⟩ := infos_flat rest j h
       exact ⟨n, Or.inr hn, hj⟩
   | .multi i ids twin :: rest, j, h => by
-    simp only [infos] at h
-    simp only [flat, List.mem_cons]
+    simp only [infos, infosN] at h
+    simp only [flat, flatN, List.mem_cons]
     rcases List.mem_append.mp h with h | h
     · exact ⟨_, Or.inl rfl, h⟩
     · obtain ⟨n, hn, hj⟩ := infos_flat rest j h
@@ -151,7 +151,7 @@ theorem infos_flat : ∀ (ch : List N), ∀ j ∈ infos ch, ∃ n ∈ flat ch, j
 theorem connDeep_of_flat : ∀ (ch : List N), ConnOK (flat ch) → ConnDeep ch
   | [], _ => trivial
   | .afn i name param :: rest, h => by
-    simp only [flat] at h
+    simp only [flat, flatN] at h
     simp only [ConnDeep]
     have hr : ConnOK (flat rest) := (ConnOK.right h).tail
     refine ⟨connDeep_of_flat param (ConnOK.left h), connDeep_of_flat rest hr, ?_, ?_⟩
@@ -171,11 +171,11 @@ theorem connDeep_of_flat : ∀ (ch : List N), ConnOK (flat ch) → ConnDeep ch
       exact (List.pairwise_append.mp h.1).2.2 n hn m hm
   | .root i :: rest, h | .cur i :: rest, h | .child i _ :: rest, h | .wild i :: rest, h
   | .desc i _ _ :: rest, h | .union i _ :: rest, h | .filter i _ :: rest, h | .ffn i _ :: rest, h => by
-    simp only [flat] at h
+    simp only [flat, flatN] at h
     simp only [ConnDeep]
     exact ⟨h.2.1 _ List.mem_cons_self, connDeep_of_flat rest h.tail⟩
   | .multi i ids twin :: rest, h => by
-    simp only [flat] at h
+    simp only [flat, flatN] at h
     simp only [ConnDeep]
     refine ⟨fun j hj => ?_, connDeep_of_flat rest h.tail⟩
     have := h.2.2 (.multi i ids twin) List.mem_cons_self j (by rw [errInfos_eq]; exact hj)
@@ -187,7 +187,7 @@ theorem flat_of_noAfn : ∀ (ch : List N), noAfn ch = true → flat ch = ch
   | n :: rest, h => by
     simp only [noAfn, Bool.and_eq_true] at h
     have ih := flat_of_noAfn rest h.2
-    cases n <;> simp_all [flat, noAfnN]
+    cases n <;> simp_all [flat, flatN, noAfnN]
 
 end ES
 end JPV
